@@ -50,6 +50,12 @@ def check_sets(ctx, items, label):
                     if e[0] == "conflict" and e[2] not in names:
                         ctx.violation("error-without-file", {"files": describe(rendered), "why": "a conflict error does not name a file of the set", "error": e})
                         break
+                    if e[0] == "syntax":
+                        ctx.count("syntax_errors_of_module_files")
+                        if e[1] not in names:
+                            ctx.violation("error-without-file", {"files": describe(rendered), "why": "the syntax errors of a module file are returned without the name of that file", "error": list(e)})
+                            break
+
 
 
 def run(ctx):
@@ -57,7 +63,7 @@ def run(ctx):
                 "extending the same or different types, a file defining and extending one type, two files extending a "
                 "relation-less type), conditions; one conflict from a catalogue injected or none; canonical or wild layout; "
                 "non-trivial = more than one file and at least one extension; distinct by text")
-    ctx.assumptions = ["syntax errors inside a file are carried over by the merge without a file name (compared as an opaque entry)"]
+    ctx.assumptions = ["the number and the messages of the syntax errors ANTLR reports for one file are external: consecutive syntax entries of one file count as one"]
     rng = ctx.rng
     n = 45 if ctx.tier == "quick" else 1500
     items = []
